@@ -46,7 +46,8 @@ static int rd_class(const rd_result *R)
 	return V_INVALID;
 }
 
-static bool conv_chain(const synth_filter *sf, unsigned nf, lzma_filter *lf, rd_filter *rf, bool lzma1_no_eopm, uint64_t lzma_size, void **to_free)
+// lzma1_ext: 0 = LZMA_FILTER_LZMA1; 1 = LZMA_FILTER_LZMA1EXT with ext_size = lzma_size (UINT64_MAX: unknown) and ext_flags
+static bool conv_chain_ext(const synth_filter *sf, unsigned nf, lzma_filter *lf, rd_filter *rf, int lzma1_ext, uint64_t lzma_size, uint32_t ext_flags, void **to_free)
 {
 	for (unsigned i = 0; i < nf; ++i) {
 		rf[i].id = sf[i].id == SYNTH_ID_LZMA1 ? RD_FILTER_LZMA1 : sf[i].id;
@@ -55,13 +56,18 @@ static bool conv_chain(const synth_filter *sf, unsigned nf, lzma_filter *lf, rd_
 		lf[i].options = NULL;
 		if (lzma_properties_decode(&lf[i], NULL, sf[i].props_len ? sf[i].props : NULL, sf[i].props_len) != LZMA_OK) { for (unsigned j = 0; j < i; ++j) free(lf[j].options); return false; }
 		to_free[i] = lf[i].options;
-		if (lf[i].id == LZMA_FILTER_LZMA1 && lzma1_no_eopm) {
+		if (lf[i].id == LZMA_FILTER_LZMA1 && lzma1_ext) {
 			lf[i].id = LZMA_FILTER_LZMA1EXT;
-			lzma_options_lzma *o = lf[i].options; o->ext_flags = 0; lzma_set_ext_size(*o, lzma_size);
+			lzma_options_lzma *o = lf[i].options; o->ext_flags = ext_flags; lzma_set_ext_size(*o, lzma_size);
 		}
 	}
 	lf[nf].id = LZMA_VLI_UNKNOWN; lf[nf].options = NULL;
 	return true;
+}
+
+static bool conv_chain(const synth_filter *sf, unsigned nf, lzma_filter *lf, rd_filter *rf, bool lzma1_no_eopm, uint64_t lzma_size, void **to_free)
+{
+	return conv_chain_ext(sf, nf, lf, rf, lzma1_no_eopm ? 1 : 0, lzma_size, 0, to_free);
 }
 
 /////////
@@ -131,8 +137,17 @@ static void c03_case(uint64_t idx)
 		if (from_synth) {
 			bool last_lzma1 = nsf && sf[nsf - 1].id == SYNTH_ID_LZMA1;
 			bool no_eopm = last_lzma1 && !info.eopm;
-			if (no_eopm) { known = info.lzma_uncomp_size; allow_eopm = false; }
-			ok = conv_chain(sf, nsf, lf, rf, no_eopm, info.lzma_uncomp_size, tofree);
+			// every way of telling the LZMA1 decoder where the stream ends that is valid for this stream:
+			//   with end marker:    LZMA1 | LZMA1EXT size unknown (flags 0 or ALLOW_EOPM) | LZMA1EXT size known + ALLOW_EOPM
+			//   without end marker: LZMA1EXT size known (flags 0 or ALLOW_EOPM)
+			unsigned how = vrng_below(&r, 4);
+			int ext = 0; uint64_t esize = UINT64_MAX; uint32_t eflags = 0;
+			if (no_eopm) { ext = 1; esize = info.lzma_uncomp_size; eflags = (how & 1) ? LZMA_LZMA1EXT_ALLOW_EOPM : 0; known = esize; allow_eopm = (how & 1) != 0; }
+			else if (last_lzma1 && how == 1) { ext = 1; eflags = 0; }
+			else if (last_lzma1 && how == 2) { ext = 1; eflags = LZMA_LZMA1EXT_ALLOW_EOPM; }
+			else if (last_lzma1 && how == 3) { ext = 1; esize = info.lzma_uncomp_size; eflags = LZMA_LZMA1EXT_ALLOW_EOPM; known = esize; allow_eopm = true; }
+			if (ext) { char nm[48]; snprintf(nm, sizeof(nm), "lzma1ext_%s_%s", esize == UINT64_MAX ? "unknown" : "known", eflags ? "alloweopm" : "noflags"); hx_count(nm, 1); }
+			ok = conv_chain_ext(sf, nsf, lf, rf, ext, esize, eflags, tofree);
 		} else {
 			// encoder chain -> props
 			nsf = g.cfg.nfilters; ok = true;
